@@ -5,7 +5,7 @@ from __future__ import annotations
 
 import numpy as np
 
-from ...mesh import StructuredMesh, CellTypes
+from ...mesh import StructuredMesh
 from ._xml_reader import VTKXMLStructuredReader, CellTypeToCellIndices
 from ._reader_map import _VTK_EXTENSION_TO_READER, _VTK_TYPE_TO_EXTENSION
 from ._helpers import (
@@ -29,9 +29,8 @@ class VTSReader(VTKXMLStructuredReader):
         points = self._get_data_array_values(self._get_element("StructuredGrid/Piece/Points/DataArray")).reshape(
             self._num_points, 3
         )
-        return StructuredMesh((self._cells[0], self._cells[1], self._cells[2]), points), {
-            CellTypes.quad: np.arange(self._num_cells)
-        }
+        mesh = StructuredMesh((self._cells[0], self._cells[1], self._cells[2]), points)
+        return mesh, {ct: np.arange(self._num_cells) for ct in mesh.cell_types}
 
 
 _VTK_EXTENSION_TO_READER[".vts"] = VTSReader
